@@ -248,3 +248,18 @@ def check_C07(c):
                       "a packet whose attribute block is shorter than its flags announce is only subject to the crash/leak/return clauses (the package decodes attributes lazily and answers with an error status)",
                       "state comparison excludes time stamps; statvfs numbers are masked"]
     return c.finish()
+
+
+def check_C03(c):
+    c.model("ClientConn", "ClientConn.quick.cfg", note="exhaustive: 3 callers (2 with header+payload writes), peer answers in any order, reader/writer may fail at any step; safety + <>AllDone")
+    for mech, inv in [("AtomicNextId", "Inv_C03_DistinctIds"), ("SendLock", "Inv_C03_Framing"), ("DeleteOnGet", "Inv_C04_NotifiedOnce")]:
+        c.model("ClientConn", "ClientConn.abl_%s.cfg" % mech, must="fail", expect=inv, note="mechanism %s removed" % mech)
+    rc, out, path = c.run("TestVerif_OwnReply", timeout=3000)
+    count_traces(c, path, ["G", "R", "batch", "maxpacket", "conc", "t"])
+    c.cov["rule"] = ("a case is one concurrent history: G goroutines x R operations on one Client/File against the scripted peer, which answers each batch of outstanding "
+                     "requests in a prescribed permutation (all permutations for batches <= 4); distinct = histories (seeded, all different)")
+    found = c.validate("TraceClient", "TraceClient.cfg", path)
+    report_trace_violations(c, found, "TraceClient")
+    c.assumptions += ["every reply of the scripted peer is a function of the request it answers; the expected value is computed by the harness from the call's argument",
+                      "channel identity = address of the result channel (hook cc.put / cc.deliver.*)"]
+    return c.finish()
